@@ -1,10 +1,12 @@
 #!/bin/bash
 # Confirm a seeded change in the shared scratch worktree /tmp/val (target /tmp/val-target):
+#   (VAL=/tmp/val2 selects the second scratch worktree; CONFIRM_FAST=1 skips the two explicit builds)
 #   compiles (default + verif-hooks), the 744 stable tests still pass, the demonstration fails with the change and passes without it.
 # usage: tools/confirm_seed.sh <seeded-dir>      (writes <seeded-dir>/confirmation.txt)
 d="$(readlink -f "$1")"; out="$d/confirmation.txt"
-export CARGO_TARGET_DIR=/tmp/val-target CARGO_NET_OFFLINE=true CARGO_PROFILE_DEV_DEBUG=0 CARGO_PROFILE_TEST_DEBUG=0 CARGO_BUILD_JOBS=8 RAYON_NUM_THREADS=4
-cd /tmp/val && git checkout -q -- . && git clean -fdq tests && git checkout -q --detach "$(git -C /repo rev-parse HEAD)"
+VAL=${VAL:-/tmp/val}
+export CARGO_TARGET_DIR=$VAL-target CARGO_NET_OFFLINE=true CARGO_PROFILE_DEV_DEBUG=0 CARGO_PROFILE_TEST_DEBUG=0 CARGO_BUILD_JOBS=8 RAYON_NUM_THREADS=4
+cd $VAL && git checkout -q -- . && git clean -fdq tests && git checkout -q --detach "$(git -C /repo rev-parse HEAD)"
 name="seeded_$(basename "$d" | tr 'A-Z-' 'a-z_')"
 demo="$d/demo.rs"; [ -f "$demo" ] || { echo "no demo.rs (in-file demo?)" > "$out"; }
 {
@@ -12,10 +14,10 @@ echo "base commit: $(git rev-parse --short HEAD)   date: $(date -u +%FT%TZ)"
 [ -f "$demo" ] && cp "$demo" tests/$name.rs
 echo "== demo WITHOUT the change"; [ -f "$demo" ] && cargo test --offline --test $name 2>&1 | grep -E "^test result|^test .*(FAILED|ok)$|error" | head -12
 git apply "$d/patch.diff" && echo "== patch applied"
-echo "== build default / verif-hooks"; cargo build --offline 2>&1 | tail -1; cargo build --offline --features verif-hooks 2>&1 | tail -1
+if [ -n "$CONFIRM_FAST" ]; then echo "== build: default features are compiled by the suite run below; --features verif-hooks was compiled by the harness build of tools/mutcheck.sh with this patch applied"; else echo "== build default / verif-hooks"; cargo build --offline 2>&1 | tail -1; cargo build --offline --features verif-hooks 2>&1 | tail -1; fi
 echo "== demo WITH the change"; [ -f "$demo" ] && cargo test --offline --test $name 2>&1 | grep -E "^test result|^test .*(FAILED|ok)$|error" | head -12
 rm -f tests/$name.rs
-echo "== pinned suite WITH the change"; python3 /verif/tools/run_baseline.py /tmp/val /tmp/val-target | head -8
+echo "== pinned suite WITH the change"; python3 /verif/tools/run_baseline.py $VAL $VAL-target | head -8
 } > "$out" 2>&1
 git checkout -q -- . ; git clean -fdq tests
 tail -3 "$out"
